@@ -22,7 +22,10 @@ chk.extra['rule'] = ('random systems (1-5 molecules, arbitrary integer node keys
                      'width or the text has >= 1 CONECT record, or it is a step of a history; histories: 3-7 files (GRO written '
                      'with different `precision`, PDB of different systems, a repeated first step) written and read in ONE '
                      'freshly forked process, every write and read compared with the model (a function of the system / of '
-                     'the text only) and checked by the oracle; distinct = distinct protocol line')
+                     'the text only) and checked by the oracle; systems with residues named SOL/HOH/W/NA/CL/ION/TIP3 are also read back '
+                     'through the processors PDBInput / GROInput (defaults, explicit exclude, ignh, modelidx=1): model reader with '
+                     'the same exclusion list; oracle: nothing excluded -> every atom of the direct read, else exactly the atoms '
+                     'of the other residue names; distinct = distinct protocol line')
 
 gen, extract_err = None, None
 try:
@@ -50,11 +53,13 @@ from vermouth.molecule import Molecule
 from vermouth.system import System
 from vermouth.pdb.pdb import write_pdb_string, read_pdb
 from vermouth.gmx.gro import write_gro, read_gro
+from vermouth.processors import PDBInput, GROInput
 quiet_vermouth_logs()
 
 TMP = tempfile.mkdtemp(prefix='c16_')
 STR_ATTRS = ('atomname', 'altloc', 'resname', 'chain', 'insertion_code', 'element')
 LETTERS = 'ABCDEFGHIJKLMNOPQRSTUVWXYZabcdefghijklmnopqrstuvwxyz'
+EXCL_NAMES = ('SOL', 'HOH', 'W', 'NA', 'CL', 'ION', 'TIP3')
 known = {k['id'] for k in chk.known if k.get('status') == 'known'}
 
 
@@ -471,6 +476,19 @@ N = 6000 if chk.thorough else 700
 for i in range(N):
     k = rng.random()
     cases.append(('sys-%d' % i, rand_case(rng, 'plain' if k < 0.9 else ('letterless' if k < 0.95 else 'hostile'))))
+# systems with solvent / ion residue names (the ones a default exclusion list would name), read back through the
+# processors as well (proc_reads)
+rngp = chk.rng('procread')
+for i in range(1200 if chk.thorough else 150):
+    c = rand_case(rngp, 'plain')
+    c['proc'] = True
+    for m in c['mols']:
+        whole = rngp.random() < 0.3
+        nm = rngp.choice(EXCL_NAMES)
+        for a in m['atoms']:
+            if whole or rngp.random() < 0.3:
+                a['resname'] = nm if whole or rngp.random() < 0.6 else rngp.choice(EXCL_NAMES)
+    cases.append(('proc-%d' % i, c))
 rngb = chk.rng('big')
 for total in (9998, 9999, 10000, 10001, 10002):
     cases.append(('big-%d' % total, big_case(rngb, total, rngb.choice([1, 2, 3]), 'big')))
@@ -509,6 +527,69 @@ def cnt(key, n=1):
 
 
 records = []   # (case id, op, protocol line, impl canonical, oracle errs, nontrivial, finding, use_oracle)
+
+
+# ----------------------------------------------------------------------------
+# reading back through the PROCESSORS (vermouth.processors.PDBInput / GROInput - the path martinize2 takes):
+# their own defaults (nothing excluded) and explicit exclude / ignh / modelidx; the model reader takes the
+# exclusion list and ignh as parameters; oracle: with an empty exclusion list (and ignh off) exactly what the
+# direct, oracle-checked read with exclude=() returned, else exactly its atoms of the other residue names
+# (and, with ignh, of an element other than H), in the same order
+# ----------------------------------------------------------------------------
+def proc_variants(rng_, present):
+    names = sorted(n for n in present if n)
+    out = [('default', {}), ('empty', {'exclude': ()}), ('sol', {'exclude': ('SOL',)})]
+    pick = tuple(rng_.sample(names, min(len(names), rng_.choice([1, 1, 2])))) if names else ('HOH',)
+    out.append(('names', {'exclude': pick + ('ZZZ',)}))
+    out.append(('ignh', {'ignh': True}))
+    out.append(('all', {'exclude': [rng_.choice(names)] if names else [], 'ignh': rng_.random() < 0.5}))
+    return out
+
+
+def proc_reads(cid, fmt, path, case, flines, direct, nontriv):
+    """direct: the molecules (PDB) / molecule (GRO) read directly with nothing excluded"""
+    rng_ = chk.rng('procread-' + cid)
+    dmols = direct if fmt == 'pdb' else [direct]
+    rows = [(n.get('resname'), n.get('element'), n) for m in dmols for n in (m.nodes[i] for i in m.nodes)]
+    present = {r[0] for r in rows}
+    variants = proc_variants(rng_, present)
+    if fmt == 'pdb':
+        variants.append(('model1', {'modelidx': 1, 'exclude': ()}))
+    for tag, kw in variants:
+        excl, ignh = tuple(kw.get('exclude', ())), bool(kw.get('ignh', False))
+        what = '%s(%s)' % ('PDBInput' if fmt == 'pdb' else 'GROInput',
+                           ', '.join('%s=%r' % kv for kv in sorted(kw.items())))
+        errs, got = [], None
+        try:
+            system = System()
+            (PDBInput if fmt == 'pdb' else GROInput)(path, **kw).run_system(system)
+            got = list(system.molecules)
+            if fmt == 'pdb':
+                impl = canon_pdb(got)[0]
+            else:
+                if len(got) != 1:
+                    errs.append('%s added %d molecules to the system' % (what, len(got)))
+                impl = canon_gro(got[0])
+        except Exception as e:
+            impl = exc_name(e)
+            errs.append('%s raised %s on the written file' % (what, type(e).__name__))
+        if got is not None:
+            want = [n for rn, el, n in rows if rn not in excl and not (ignh and el == 'H')]
+            have = [m.nodes[i] for m in got for i in m.nodes]
+            key = (lambda n: (n.get('atomid'), n.get('atomname'), n.get('resname'), n.get('resid'), n.get('chain'),
+                              tuple(int(round(float(v) * 10000)) for v in n['position'])))
+            if [key(n) for n in want] != [key(n) for n in have]:
+                lost = sorted({n.get('resname') for n in want} - {n.get('resname') for n in have})
+                errs.append('%s returned %d atoms; the file holds %d atoms, %d of them outside the exclusion%s'
+                            % (what, len(have), len(rows), len(want),
+                               '; residue names lost: %s' % lost if lost else ''))
+        cnt('proc_%s_%s' % (fmt, tag))
+        if got is not None and len(have) < len(rows):
+            cnt('proc_%s_atoms_excluded' % fmt)
+        if any(rn in EXCL_NAMES for rn in present):
+            cnt('proc_%s_with_solvent_like_residue_names' % fmt)
+        rline = line(fmt + 'read', list(excl), ignh, flines)
+        records.append(('%s-%sproc-%s' % (cid, fmt, tag), rline, impl, errs, nontriv, None, True))
 
 
 def run_pdb(cid, case):
@@ -561,6 +642,8 @@ def run_pdb(cid, case):
                         False))
         return
     records.append((cid + '-pdbread', rline, impl_r, errs if use or finding else [], nontriv, finding, use))
+    if case.get('proc') and exc is None:
+        proc_reads(cid, 'pdb', path, case, text.split('\n'), mols, nontriv)
     # the closed form of the totality theorems (pdb_file_overflow_local: truncAtomOf) against what read_pdb returned
     if kind not in ('big', 'huge'):     # (nothing overflows there; saves re-sending the large systems)
         tline = line('pdbtrunc', enc_system(case))
@@ -617,6 +700,8 @@ def run_gro(cid, case0, precision=None):
     records.append((cid + '-growrite', wline, impl_w, [], nontriv, None, True))
     rline = line('groread', [], False, flines)
     records.append((cid + '-groread', rline, impl_r, errs if use or finding else [], nontriv, finding, use))
+    if case0.get('proc') and exc is None:
+        proc_reads(cid, 'gro', path, case, flines, mol, nontriv)
     if precision is None and kind not in ('big', 'huge'):
         records.append((cid + '-grotrunc', line('grotrunc', enc_system(case)), impl_r, [], nontriv, None, True))
 
